@@ -130,12 +130,18 @@ def b_random(seed_base, programs, what="stmt"):
         return run_native("c01_random_bounded", {"seed": seed_base + seed, "programs": programs, "what": what, "max_failures": 5}, timeout=1500)
     return run
 
+def b_programs(seed):
+    from replay.native import run_native
+    return run_native("c03_programs_bounded", {"seed": seed, "set": "C02"}, timeout=600)
+
+
 def harnesses():
     hs = []
     for name, src in STMT.items():
         hs.append(Harness(name, h_template(name, src), units=[(E_PY, "AstEval.aeval")], replay=replay_template, max_paths=8000,
                           tier="thorough" if name == "With.two" else "quick"))  # With.two needs > 100 s of exploration
     hs.append(Harness("adequacy.native-differential", b_adequacy, units=[(E_PY, "AstEval.aeval")], kind="bounded"))
+    hs.append(Harness("programs.native-differential", b_programs, units=[(E_PY, "AstEval.ast_for"), (E_PY, "AstEval.ast_while"), (E_PY, "AstEval.ast_try")], kind="bounded"))
     hs.append(Harness("random.native-differential", b_random(5000, 400), units=[(E_PY, "AstEval.aeval")], kind="bounded"))
     for k in range(1, 9):
         hs.append(Harness(f"random.native-differential[thorough {k}/8]", b_random(5000 + 100 * k, 1500), units=[(E_PY, "AstEval.aeval")], kind="bounded", tier="thorough"))
